@@ -97,6 +97,17 @@ Definition graph_head (h : hier) (children : list name) : option name :=
   | _ => None
   end.
 
+Lemma graph_head_in h ch hd : graph_head h ch = Some hd -> In hd ch.
+Proof.
+  unfold graph_head.
+  set (f := fun x => negb (existsb (fun c => match find h c with
+                                             | Some n => zmem x (jump_targets n)
+                                             | None => false end) ch)).
+  destruct (filter f ch) as [|a [|? ?]] eqn:E; try discriminate.
+  intros [= <-]. assert (H : In a (filter f ch)) by (rewrite E; left; reflexivity).
+  apply filter_In in H as [H _]. exact H.
+Qed.
+
 Definition start_of (region_walk : bool) (h : hier) : option name :=
   match top_region h with
   | Some top =>
